@@ -72,6 +72,22 @@ func segmentations(r *Rand, b []byte) [][][]byte {
 			out = append(out, s)
 		}
 	}
+	// a short first write (leaving the encoder mid-group / mid-line), then writes of whole lines
+	for _, head := range []int{1, 2, 5, 47, 50} {
+		for _, step := range []int{48, 96, 768} {
+			if head+step <= len(b) && len(b) <= 4000 {
+				s := [][]byte{b[:head]}
+				for i := head; i < len(b); i += step {
+					e := i + step
+					if e > len(b) {
+						e = len(b)
+					}
+					s = append(s, b[i:e])
+				}
+				out = append(out, s)
+			}
+		}
+	}
 	// random
 	var s [][]byte
 	for i := 0; i < len(b); {
